@@ -217,11 +217,18 @@ def _relabeled(lab, alt):
     return [alt] + list(lab[1:])
 
 
-def apply_impl(ds, ev):
-    """returns None or raises"""
+def apply_impl(ds, ev, made=None):
+    """returns None or raises.  made: the arrays assigned so far in this history, by (pool id, key): the SAME array object is assigned again
+    when the history repeats an assignment (a Dataset must not keep hold of the Axis objects of the arrays given to it)"""
     k = ev[0]
     if k == "set":
-        ds[ev[1]] = D.build_impl(pool_array(ev[2], ev[1]))
+        if made is None:
+            arr = D.build_impl(pool_array(ev[2], ev[1]))
+        else:
+            if (ev[2], ev[1]) not in made:
+                made[(ev[2], ev[1])] = D.build_impl(pool_array(ev[2], ev[1]))
+            arr = made[(ev[2], ev[1])]
+        ds[ev[1]] = arr
     elif k == "setraw":
         ds[ev[1]] = NONDA[ev[2]]
     elif k == "del":
@@ -370,11 +377,12 @@ class Space(object):
         if m:
             return bad("start state {}: {}".format(hist[0][1], m))
         changed = True
+        made = {}
         for n, ev in enumerate(hist[1:]):
             last = n == len(hist) - 2
             pre = common.snap(ds) if last else None
             verdict = apply_ref(ref, ev)
-            r = call(apply_impl, ds, ev)
+            r = call(apply_impl, ds, ev, made)
             if verdict == "reject":
                 if not (isinstance(r, Raised) and issubclass(r.cls, ValueError)):
                     return bad("step {} {}: labels disagree with an existing axis, expected ValueError, got {}".format(n, ev, common.describe(r)))
